@@ -139,7 +139,7 @@ fn min_len(f: Family, c: Container) -> usize {
 const TUPLE_LENS: &[usize] = &[2, 1, 3, 2, 3, 4, 5, 6, 7, 8, 9, 10, 11, 12, 0, 4];
 const ARRAY_CHOICES: &[usize] = &[2, 1, 3, 2, 3, 4, 5, 6, 7, 8, 12, 16, 0, 4];
 const VEC_LENS: &[usize] = &[2, 1, 3, 2, 3, 4, 5, 6, 7, 8, 9, 10, 11, 12, 0, 4];
-const BIG_LENS: &[usize] = &[22, 23, 24, 63, 64, 65, 66, 100, 128, 129, 200];
+const BIG_LENS: &[usize] = &[22, 23, 24, 63, 64, 65, 66, 100, 128, 129, 200, 255, 256, 257, 300];
 
 pub fn gen_script(c: &mut Cur, p: &Profile, flavor: Flavor, nleaves_hint: usize) -> LeafSpec {
     let len = c.choice(p.max_script + 1);
@@ -239,7 +239,14 @@ pub fn gen_comb(c: &mut Cur, p: &Profile, fam: Family, depth: usize, nests_left:
             let mut n = match container {
                 Container::Ext => 2,
                 Container::Tuple => TUPLE_LENS[c.choice(TUPLE_LENS.len())],
-                Container::Array => ARRAY_CHOICES[c.choice(ARRAY_CHOICES.len())],
+                Container::Array => {
+                    // now and then an array beyond a one-byte counter
+                    if depth == 0 && c.coin(if p.big_vec { 10 } else { 3 }) {
+                        [256usize, 300][c.choice(2)]
+                    } else {
+                        ARRAY_CHOICES[c.choice(ARRAY_CHOICES.len())]
+                    }
+                }
                 _ => {
                     // boundary lengths of the internal tables (inline capacity 23,
                     // bitset blocks of 64): often in the thorough tier, now and
@@ -284,11 +291,12 @@ pub fn gen_schedule(c: &mut Cur, p: &Profile) -> Vec<Action> {
     let mut out = Vec::with_capacity(len);
     for _ in 0..len {
         let k = if spurious_heavy {
-            c.weighted(&[(0u8, 70), (1, 30), (2, p.p_drop / 4)])
+            c.weighted(&[(0u8, 70), (1, 30), (2, p.p_drop / 4), (3, 3)])
         } else {
-            c.weighted(&[(0u8, 45), (1, 45), (2, p.p_drop)])
+            c.weighted(&[(0u8, 45), (1, 45), (2, p.p_drop), (3, 5)])
         };
         out.push(match k {
+            3 => Action::FireAll,
             0 => Action::Poll { reuse: c.coin(70) },
             1 => Action::Fire {
                 leaf: c.byte(),
@@ -313,7 +321,7 @@ pub fn gen_case(bytes: &[u8], p: &Profile) -> Case {
     let fam = c.weighted(&fams);
     let mut nests = 2usize;
     let mut root = gen_comb(&mut c, p, fam, 0, &mut nests);
-    let mut fair_polls = 0u16;
+    let mut fair_polls = 0u32;
     if p.fair {
         // designate one input that has an item on every poll
         // (one, sometimes two or three inputs: each of them must be served)
@@ -327,7 +335,7 @@ pub fn gen_case(bytes: &[u8], p: &Profile) -> Case {
         }
         // mostly a few rounds; sometimes a long run (rotation state that only
         // goes wrong after hundreds of polls)
-        fair_polls = if c.coin(20) { (260 + c.choice(500)) as u16 } else { (n * (3 + c.choice(6))) as u16 };
+        fair_polls = if c.coin(20) { (260 + c.choice(500)) as u32 } else { (n * (3 + c.choice(6))) as u32 };
     }
     if c.coin(p.p_panic) {
         let mut leaves = Vec::new();
